@@ -987,7 +987,7 @@ impl<T: PPGEvaluatorStrategy> PPGEvaluator<T> {
                 #[cfg(tyberiusprime_pypipegraph2_verif)]
                 crate::verif::log_transition(
                     &self.jobs[*idx].job_id,
-                    verif_state_text(&self.jobs[*idx].state),
+                    format!("{:?}", self.jobs[*idx].state),
                     "Pruned".to_string(),
                 );
                 self.jobs[*idx].state = JobState::Ephemeral(JobStateEphemeral::FinishedSkipped);
